@@ -215,6 +215,8 @@ def project_case(res, rng, tmp, i):
     declarations spread over files, so that diagnostics (and their secondary labels) cross file boundaries."""
     import shutil
     import vgen
+    if rng.random() < 0.25:
+        return many_problems_case(res, rng, tmp, i)
     decls = vgen.VGen(rng).unit()
     faults = list(vgen.plant_all(decls))
     what = "valid"
@@ -255,6 +257,56 @@ def project_case(res, rng, tmp, i):
             res.violation("crash", sig, r["err"][-400:], case)
         else:
             res.distinct.add(core.key_of("project", str(files), len(args)))
+    shutil.rmtree(ddir, ignore_errors=True)
+
+
+def many_problems_case(res, rng, tmp, i):
+    """Many problems in one run, from the rules that report all they find (duplicate element, bounds the wrong way round,
+    duplicate value, constant without value), in declarations of two or three files that refer to one another, so that
+    the problems of the files interleave: 3 ... 90 problems, around every round number."""
+    import shutil
+    k = rng.choice([1, 2, 5, 6, 7, 8, 10, 11, 16, 21, 22, 30])
+    nfiles = rng.choice([2, 2, 3])
+    files = [[] for _ in range(nfiles)]
+    for n in range(1, k + 1):
+        decls = [
+            "  point%d : STRUCT\n    x : INT;\n    x : INT;\n  END_STRUCT;" % n,
+            "  track%d : ARRAY[9..0] OF point%d;" % (n, n),
+            "  plot%d : ARRAY[9..0] OF track%d;" % (n, n),
+            "  mode%d : (on%d, off%d, on%d);" % (n, n, n, n),
+            "  range%d : INT(%d..0);" % (n, n),
+        ]
+        for d_ in rng.sample(decls, rng.randint(3, 5)) if n > 1 else decls:
+            files[rng.randrange(nfiles)].append(d_)
+    ddir = os.path.join(tmp, "many%d" % i)
+    os.makedirs(ddir)
+    texts = []
+    for j, ds in enumerate(files):
+        text = ("TYPE\n" + "\n".join(ds) + "\nEND_TYPE\n") if ds else ""
+        if j == 0:
+            text += "FUNCTION_BLOCK consts%d\nVAR CONSTANT\n%sEND_VAR\nEND_FUNCTION_BLOCK\n" % (
+                i, "".join("  c%d : INT;\n" % n for n in range(rng.randint(0, k))))
+        texts.append(["m%d.st" % j, text])
+        open(os.path.join(ddir, "m%d.st" % j), "w").write(text)
+    for args in ([ddir], [os.path.join(ddir, f[0]) for f in reversed(texts)]):
+        r = core.run_cli(["check"] + args, tmp, timeout=60.0)
+        res.evaluations += 1
+        res.count("cli:many-problems")
+        case = {"gen": "project:many-problems:%d" % k, "cli": "check", "files": texts}
+        if r["watchdog"]:
+            if (r.get("cpu_s") or 0) * 1e9 >= CPU_BUDGET_NS:
+                res.violation("hang", "cli:cpu-budget", "more than %.0f s of CPU" % r["cpu_s"], case)
+            else:
+                res.inconclusive.append({"why": "cli watchdog", "case": case})
+        elif r["rc"] is None or r["rc"] < 0 or r["rc"] == 101 or r["rc"] >= 128:
+            pm = core.cli_panic(r["err"])
+            sig = "cli:rc=%s" % r["rc"]
+            if pm:
+                sig = "%s:%s" % (pm[0], norm_msg(pm[1]))
+            res.violation("crash", sig, r["err"][-400:], case)
+        else:
+            res.distinct.add(core.key_of("many", str(texts), len(args)))
+            res.seen("problems_in_one_run", min(200, len(re.findall(r"error\[P", r["err"]))) // 10 * 10)
     shutil.rmtree(ddir, ignore_errors=True)
 
 
